@@ -202,7 +202,7 @@ func orderedSubsets(pool []string, max int, r *core.Rand, limit int) [][]string 
 
 func c05(ctx *core.Ctx) {
 	quietLogs()
-	ctx.Rule("routes with every ordered Produces list (size 1-3) over the registered media types x generated Accept headers (1-18 ranges, now and then 33, 65 or 100, q-values, parameters before/after q, */*, foreign types, absent, two header fields) x default response content type {unset, JSON, XML} x registered-writer set {built-in, +text/plain, +application/x-verif, +8 types registered concurrently, +types registered with a parameter of their own (charset, version)}; handler calls WriteEntity / WriteHeaderAndEntity; every route is registered for GET, HEAD, PUT, DELETE, PATCH and POST (requests rotate over them); every third route also declares media types without a registered writer; every fourth request goes through a container with an adapted pass-through middleware; long headers whose producible ranges only come at the very end. Oracle: reference ranker; SP-decorated spelling and 3 repetitions must give the same choice. Non-trivial = an admitted request that wrote an entity; distinct by (writer set, default, produces list, winning rule: exact/star/absent, number of ranges bucket, decorated).")
+	ctx.Rule("routes with every ordered Produces list (size 1-3) over the registered media types x generated Accept headers (1-18 ranges, now and then 33, 65 or 100, q-values, parameters before/after q, */*, foreign types, absent, two header fields) x default response content type {unset, JSON, XML} x registered-writer set {built-in, +text/plain, +application/x-verif, +8 types registered concurrently, +types registered with a parameter of their own (charset, version)}; handler calls WriteEntity / WriteHeaderAndEntity; every route is registered for GET, HEAD, PUT, DELETE, PATCH and POST (requests rotate over them); every third route also declares media types without a registered writer; every fourth request goes through a container with an adapted pass-through middleware; every seventh handler overwrites Accept in the request's header map (preparing an upstream call) before it writes its entity; long headers whose producible ranges only come at the very end. Oracle: reference ranker; SP-decorated spelling and 3 repetitions must give the same choice. Non-trivial = an admitted request that wrote an entity; distinct by (writer set, default, produces list, winning rule: exact/star/absent, number of ranges bucket, decorated).")
 	ctx.Assume("Accept grammar: full media types and */*, well-formed q-values (malformed q and type/* ranges are outside the property)",
 		"with two Accept header fields only the reference-free clauses (Content-Type in Produces, never 406) are judged")
 	defer restful.DefaultResponseContentType("")
@@ -316,6 +316,13 @@ func c05(ctx *core.Ctx) {
 						// somebody (a filter, the handler) put a default Content-Type on the response before the entity is written
 						resp.Header().Set("Content-Type", "text/html; charset=utf-8")
 					}
+					if req.Request.Header.Get("X-Upstream") == "1" {
+						// the handler prepares a call to another service on the header map of this request (proxies do): what it
+						// asks of the upstream is not what the client asked of us - the entity is negotiated with the client's Accept
+						up := req.Request.Header
+						up.Set("Accept", "application/octet-stream")
+						up.Del("Accept-Language")
+					}
 					if req.Request.Header.Get("X-Created") == "1" {
 						resp.WriteHeaderAndEntity(201, negEntity{A: "x", N: 7})
 					} else {
@@ -364,6 +371,9 @@ func c05(ctx *core.Ctx) {
 						}
 						if h%5 == 2 {
 							req.Hdr["X-Preset"] = "1"
+						}
+						if h%7 == 3 {
+							req.Hdr["X-Upstream"] = "1"
 						}
 						obs := &rt.Obs{}
 						rec := rt.NewRec()
